@@ -32,6 +32,9 @@ CHECKS.update({
  'C16': A("Closed-form ellipsoid and normal offset, NED frame orthonormal with columns = partial derivatives of ECEF position divided by the principal radii (eps-jets through the real lla_to_ecef / principal_radii / mat_en_from_ll), first-order agreement of perturb_lla / compute_lla_difference / lla_to_ned with that geometry, curvature matrix = rotation of the NED frame under displacement, gravity = compiled copy = gravity_n = gravitation_ecef minus centrifugal term, rate_n, parity in latitude, stacked = scalar; proved with symbolic ellipsoid and gravity constants; structure of the Olson inverse (longitude exact, z-mirror, stacked = single) by path exploration of its masked assignments. The accuracy of the Olson inverse is stated as outside.", "DESIGN.md 5/C16"),
  'C07': A("The real kalman.correct on fully symbolic x, P=P^T, z, H, R=R^T (R positive definite, P positive semidefinite as preconditions): posterior mean and covariance equal x + P H^T S^-1 (z - Hx) and P - P H^T S^-1 H P, symmetric, information form, P - P+ and P+ positive semidefinite (n <= 2), innovation = residual whitened by the LOWER Cholesky factor, two independent blocks in either order = joint update, inputs not written. Rational identities that nlsat cannot decide are reduced exactly to polynomial identities by multiplying out the reciprocals. Dimensions <= 3x2 / 5x1; all conditioning claims are outside.", "DESIGN.md 5/C07"),
  'C08': A("The real kalman.compute_process_matrices on symbolic F, symmetric Q and a formal time step, expm replaced by its defining series (exact in the truncated algebra): coefficientwise through dt^K the transition matrix is exp(F dt), the noise matrix is the series of the integral of the propagated noise density, symmetric, zero for a zero step; with two formal steps the composition law Phi(s+t) = Phi(t)Phi(s), Qd(s+t) = Phi(t)Qd(s)Phi(t)^T + Qd(t). n <= 3 (quick) / 4 (thorough), K <= 6.", "DESIGN.md 5/C08"),
+ 'C05': A("eps-jets through the real correct_pva, compute_state_difference (Series branch, including to_180_range), transform_to_output / transform_to_internal, sim.perturb_pva, perturb_lla in both altitude modes: the output-to-internal transform is a left inverse, the eps^1 coefficient of state_difference(pva, correct_pva(pva, eps x)) equals T_out x, perturb-then-correct restores the state to first order, the residual is exactly second order (non-zero eps^2 coefficient witnessed), 2D rows down/VD of T_out identically zero and correct_pva returns alt and VD unchanged through eps^2.", "DESIGN.md 5/C05"),
+ 'C06': A("The real Position / NedVelocity / BodyVelocity.compute_matrices and their Jacobian helpers on symbolic state, lever arm (none or symbolic), body rates (present/absent), both altitude modes: H x equals the eps^1 coefficient of z(pva) - z(correct_pva(pva, eps x)), z equals predicted minus measured against an independent oracle, R = sd^2 I of matching dimension, absent time returns None, simulated measurements with a symbolic error give residual -e.", "DESIGN.md 5/C06"),
+ 'C15': A("The real compute_increments_from_imu (both sensor types) on formal-interval samples of polynomial signals with symbolic vector coefficients against the Peano-Baker series of the exact attitude and body-frame velocity integral: for linear signals the rotation is exact through T^4, the velocity increment through T^2 and its only T^3 discrepancy is (1/6) a x (a x d); generic quadratic signals agree below the algorithm order; table shape for irregular symbolic stamps.", "DESIGN.md 5/C15"),
 })
 
 NA = {
